@@ -314,6 +314,60 @@ def _(it, a, info):
     return Some(rebuild_elem(it, w, q.oid, nk - 1, pay))
 
 
+@tmodel('VecDeque::front', 'VecDeque::back', 'VecDeque::front_mut', 'VecDeque::back_mut')
+def _(it, a, info):
+    w = world(it)
+    q = deref(it, a[0])
+    ne = w.fresh_bool('nonempty')
+    kind = w.fresh_bv('kind', 8)
+    pay = w.fresh_bv('payload')
+    which = 'front' if info['method'].startswith('front') else 'back'
+    w.emit('q_peek', q.oid, [], {'nonempty': ne, 'kind': kind, 'payload': pay}, extra=which)
+    if not it.ctx.branch(ne):
+        return NONE()
+    nk = w.elem_kinds.get(q.oid, w.elem_kinds.get('*', 1))
+    for k in range(nk - 1):
+        if it.ctx.branch(kind == k):
+            return Some(Ref(Cell(rebuild_elem(it, w, q.oid, k, pay))))
+    it.ctx.add(kind == nk - 1)
+    return Some(Ref(Cell(rebuild_elem(it, w, q.oid, nk - 1, pay))))
+
+
+@tmodel('VecDeque::push_front')
+def _(it, a, info):
+    w = world(it)
+    q = deref(it, a[0])
+    k, p = flatten_elem(it, w, a[1])
+    w.emit('q_push_front', q.oid, [bv(k, 8), p])
+    return unit()
+
+
+@tmodel('VecDeque::pop_back')
+def _(it, a, info):
+    w = world(it)
+    q = deref(it, a[0])
+    ne = w.fresh_bool('nonempty')
+    kind = w.fresh_bv('kind', 8)
+    pay = w.fresh_bv('payload')
+    w.emit('q_pop_back', q.oid, [], {'nonempty': ne, 'kind': kind, 'payload': pay})
+    if not it.ctx.branch(ne):
+        return NONE()
+    nk = w.elem_kinds.get(q.oid, w.elem_kinds.get('*', 1))
+    for k in range(nk - 1):
+        if it.ctx.branch(kind == k):
+            return Some(rebuild_elem(it, w, q.oid, k, pay))
+    it.ctx.add(kind == nk - 1)
+    return Some(rebuild_elem(it, w, q.oid, nk - 1, pay))
+
+
+@tmodel('VecDeque::clear')
+def _(it, a, info):
+    w = world(it)
+    q = deref(it, a[0])
+    w.emit('q_clear', q.oid)
+    return unit()
+
+
 @tmodel('VecDeque::is_empty')
 def _(it, a, info):
     w = world(it)
